@@ -210,6 +210,12 @@ def run_transfer_case(prog, params):
                 consistency(sr, u, snap5, None, key_base, findings, prefix='S_', walk=True)
             if 'C12' in props:
                 check_errors(sr, u, key_base, findings, start, [src, dst])
+                # a transfer whose source is missing from an existing directory reports not-found, on every backend
+                if status == 'err' and why == 'source does not exist' and o.tag == 'err' and ts.kind(u.parent(src)) == 'dir' \
+                        and td.kind(dst) == 'absent' and td.kind(u.parent(dst)) == 'dir' \
+                        and not str(o.kind).startswith('FileNotFound') and 'NotFound' not in str(o.kind):
+                    findings.append(make_finding('C12', key_base + '|misclassified:%s' % o.kind,
+                                                 '%s of a source that is missing from an existing directory reports %s, not not-found' % (op, o.kind), sr))
             if not res.samples:
                 res.samples.append({'pair': pair, 'source_tree': shape_str(shape), 'dest_side': shape_str(dshape), 'call': '%s %s %s' % (op, src, dst),
                                     'outcome': out, 'contract': status})
